@@ -25,9 +25,9 @@ import (
 func init() {
 	core.Register(&core.Prop{
 		ID: "C03", Level: "exploration",
-		Rule: "cases are (history, request): histories of 0-40 previously sent messages mixing application messages (plain bodies, repeating groups incl. nested and last-in-body, near-empty bodies), engine-generated Heartbeats, TestRequests, Rejects and earlier gap fills, and sends made while disconnected; no dictionary / FIX44 / FIXT11+FIX50SP2; ranges b in [1,last+3], e in {0, 999999, <b, b..last+3}; application refusal patterns on replay; persistence on (memory, file, sqlite) and off; non-trivial = reply with a replayed application message and a gap fill; distinct by (reply shape, body class, range class)",
+		Rule:        "cases are (history, request): histories of 0-40 previously sent messages mixing application messages (plain bodies, repeating groups incl. nested and last-in-body, near-empty bodies), engine-generated Heartbeats, TestRequests, Rejects and earlier gap fills, and sends made while disconnected; no dictionary / FIX44 / FIXT11+FIX50SP2; ranges b in [1,last+3], e in {0, 999999, <b, b..last+3}; application refusal patterns on replay; persistence on (memory, file, sqlite) and off; non-trivial = reply with a replayed application message and a gap fill; distinct by (reply shape, body class, range class)",
 		Assumptions: []string{"BeginSeqNo >= 1"},
-		FloorQuick: 200, FloorThorough: 2000,
+		FloorQuick:  200, FloorThorough: 2000,
 		Parts: []core.Part{{Name: "replay", Run: run, Replay: replay}},
 	})
 }
